@@ -523,6 +523,10 @@ func parseSccExtension(r *bits.EBSPReader) (*SccExtension, error) {
 	ext.PalettePredictorInitializersPresentFlag = r.ReadFlag()
 	if ext.PalettePredictorInitializersPresentFlag {
 		ext.NumPalettePredictorInitializers = r.ReadExpGolomb()
+		if ext.NumPalettePredictorInitializers > maxPalettePredictorInitializers {
+			return nil, fmt.Errorf("pps_num_palette_predictor_initializers %d > %d",
+				ext.NumPalettePredictorInitializers, maxPalettePredictorInitializers)
+		}
 		if ext.NumPalettePredictorInitializers > 0 {
 			ext.MonochromePaletteFlag = r.ReadFlag()
 			ext.LumaBitDepthEntryMinus8 = r.ReadExpGolomb()
@@ -533,13 +537,13 @@ func parseSccExtension(r *bits.EBSPReader) (*SccExtension, error) {
 			}
 			ext.PalettePredictorInitializer = make([][]uint, numComps)
 			// Fill luma
-			for i := uint(0); i < ext.NumPalettePredictorInitializers; i++ {
+			for i := uint(0); i < ext.NumPalettePredictorInitializers && r.AccError() == nil; i++ {
 				ext.PalettePredictorInitializer[0] =
 					append(ext.PalettePredictorInitializer[0], r.Read(int(ext.LumaBitDepthEntryMinus8+8)))
 			}
 			// Fill chroma if any
 			for comp := 1; comp < numComps; comp++ {
-				for i := uint(0); i < ext.NumPalettePredictorInitializers; i++ {
+				for i := uint(0); i < ext.NumPalettePredictorInitializers && r.AccError() == nil; i++ {
 					ext.PalettePredictorInitializer[comp] =
 						append(ext.PalettePredictorInitializer[comp], r.Read(int(ext.ChromaBitDepthEntryMinus8+8)))
 				}
